@@ -469,12 +469,18 @@ SPECS["C04"]["assumptions"] += ["node-level query: rank 1 is a passive receiver;
 
 SPECS["C20"] = dict(
     level="model_checking",
-    encodes=["lp/process.c:send_anti_messages", "do_rollback", "silent_execution", "process_msg", "checkpoint_take (statistics calls)", "log/stats.h counters as used by the runtime"],
-    assumptions=PROC_ASSUME + ["component level (b) only: the per-thread counters are incremented exactly once per forward execution, rollback, undone event, silent re-execution, checkpoint and anti-message (stats_take is a counting stub with the semantics of stats.c: add to the current record)",
-                               "the writer/format part (a) (stats.c + file.c over an in-memory FILE model) ran out of memory in propositional reduction (11 GB for one record) and is NOT claimed; the shutdown race on record counts (F6) is not checked"],
-    outside=["file layout / parsing (a)", "equal record counts under the shutdown race (c)", "multi-node assembly"],
-    level_text="component level: each real operation of lp/process.c changes the statistics counters by exactly what happened (hence undone <= forward cumulatively); the binary file layout is NOT covered",
-    queries=[P_L4, P_L3, P_STEP0],
+    encodes=["log/stats.c:stats_global_init", "stats_init", "stats_take", "stats_retrieve", "stats_on_gvt", "stats_global_fini", "stats_file_final_write", "log/file.c:file_memory_load", "file_open", "file_write_chunk",
+             "lp/process.c:send_anti_messages", "do_rollback", "silent_execution", "process_msg", "checkpoint_take (statistics calls)"],
+    assumptions=PROC_ASSUME + ["writer queries: FILE is an in-memory model (tmpfile/fopen/fwrite/fread/fseek/ftell/fclose/setvbuf over byte arrays), timers and memory statistics arbitrary, worker threads sequentialised (each thread: count, then its stats_on_gvt), single rank; the number of GVT rounds and threads is a constant per query so that file offsets stay concrete",
+                               "counter queries: stats_take is a counting stub with the semantics of stats.c (add to the current record)",
+                               "every thread is told every GVT round exactly once (the shutdown window in which a thread can miss the last round, F6 of DESIGN.md section 6, is outside: C08 is not applicable)"],
+    outside=["equal record counts under the shutdown race", "multi-node assembly (stats_files_send/receive)", "the shipped python parser"],
+    level_text="the real writer (stats.c + file.c) over an in-memory FILE model produces, for 0..3 GVT rounds and 1-2 threads, a file that a reader written from the documented layout parses exactly (magic, metric names, node and per-thread sections of equal record count, the counted values); each real operation of lp/process.c changes the counters by exactly what happened",
+    queries=[P_L4, P_L3, P_STEP0] + [
+        Q("writer_g%d_t%d" % (g, t), "c20_stats.c", defs={"G": g, "NT": t}, unwind=14, native=False, timeout=900, mem_est=2,
+          unwindset={"memcpy.0": 420, "memset.0": 260, "fwrite.0": 420, "fread.0": 420, "strlen.0": 30, "strnlen.0": 30},
+          bounds="%d GVT rounds, %d worker thread(s), 3 arbitrary stats_take calls per thread and round, arbitrary non-decreasing GVT values" % (g, t))
+        for (g, t) in ((0, 1), (1, 1), (2, 1), (2, 2), (3, 2))],
 )
 
 SPECS["C10"]["queries"] += [
